@@ -40,6 +40,16 @@ STD_ENUMS = {
     'ToSqlOutput': {'Borrowed': 0, 'Owned': 1},
     'FromSqlError': {'InvalidType': 0, 'OutOfRange': 1, 'InvalidBlobSize': 2, 'Other': 3},
 }
+STD_ENUMS['rusqlite::Error'] = {n: i for i, n in enumerate(
+    ['SqliteFailure', 'SqliteSingleThreadedMode', 'FromSqlConversionFailure', 'IntegralValueOutOfRange', 'Utf8Error', 'NulError',
+     'InvalidParameterName', 'InvalidPath', 'ExecuteReturnedResults', 'QueryReturnedNoRows', 'InvalidColumnIndex',
+     'InvalidColumnName', 'InvalidColumnType', 'StatementChangedRows', 'ToSqlConversionFailure', 'InvalidQuery',
+     'MultipleStatement', 'InvalidParameterCount'])}
+STD_ENUMS['ErrorCode'] = {n: i for i, n in enumerate(
+    ['InternalMalfunction', 'PermissionDenied', 'OperationAborted', 'DatabaseBusy', 'DatabaseLocked', 'OutOfMemory', 'ReadOnly',
+     'OperationInterrupted', 'SystemIoFailure', 'DatabaseCorrupt', 'NotFound', 'DiskFull', 'CannotOpen',
+     'FileLockingProtocolFailed', 'SchemaChanged', 'TooBig', 'ConstraintViolation', 'TypeMismatch', 'ApiMisuse',
+     'NoLargeFileSupport', 'AuthorizationForStatementDenied', 'ParameterOutOfRange', 'NotADatabase', 'Unknown'])}
 ERRNO = {'EPERM': 1, 'ENOENT': 2, 'EINTR': 4, 'EIO': 5, 'EBADF': 9, 'EAGAIN': 11, 'ENOMEM': 12, 'EACCES': 13, 'EEXIST': 17,
          'ENOTDIR': 20, 'EISDIR': 21, 'EINVAL': 22, 'ENOSPC': 28, 'EDEADLK': 35, 'UnknownErrno': 0}
 STD_ENUMS['Errno'] = ERRNO
@@ -445,7 +455,7 @@ class Engine:
 
     def read_place(self, fr, place):
         cont, key = self.place_ref(fr, place)
-        v = _slot_get(cont, key)
+        v = _slot_raw(cont, key)       # whole-value reads keep lazy inputs lazy; inspection points force them
         if v is UNINIT:
             raise Unsupported('read of uninitialised place %r in %s' % (place, fr.body.name))
         return v
@@ -465,8 +475,6 @@ class Engine:
                 v = fr.l.get(pl[0], UNINIT)
                 if v is UNINIT:
                     raise Unsupported('read of uninitialised local _%d in %s' % (pl[0], fr.body.name))
-                if type(v) is LazyVal:
-                    v = fr.l[pl[0]] = v.force()
             else:
                 v = self.read_place(fr, pl)
             if isinstance(v, (Struct, Enum, Arr)):
@@ -478,8 +486,6 @@ class Engine:
                 v = fr.l.get(pl[0], UNINIT)
                 if v is UNINIT:
                     raise Unsupported('move of uninitialised local _%d in %s' % (pl[0], fr.body.name))
-                if type(v) is LazyVal:
-                    v = fr.l[pl[0]] = v.force()
                 return v
             return self.read_place(fr, pl)
         return self.eval_const(op[1])
@@ -492,6 +498,8 @@ class Engine:
             return c[1]
         if k == 'unit':
             return UNIT
+        if k == 'emptyarr':
+            return Arr([])
         if k == 'str':
             return Bytes(c[1], 'str')
         if k == 'bytes':
@@ -574,12 +582,12 @@ class Engine:
             cont, key = self.place_ref(fr, pl, True)
             return Ref(cont, key)
         if k == 'binop':
-            a = self.eval_operand(fr, rv[2])
-            b = self.eval_operand(fr, rv[3])
+            a = force(self.eval_operand(fr, rv[2]))
+            b = force(self.eval_operand(fr, rv[3]))
             ty = self.operand_type(fr.body, rv[2]) or self.operand_type(fr.body, rv[3])
             return self.binop(rv[1], a, b, ty, self.operand_type(fr.body, rv[3]))
         if k == 'unop':
-            a = self.eval_operand(fr, rv[2])
+            a = force(self.eval_operand(fr, rv[2]))
             if rv[1] == 'Not':
                 if isinstance(a, bool):
                     return not a
@@ -598,7 +606,10 @@ class Engine:
                 return self.seq_len(a)
             raise Unsupported('unop ' + rv[1])
         if k == 'disc':
-            v = self.read_place(fr, rv[1])
+            cont, key = self.place_ref(fr, rv[1])
+            v = _slot_get(cont, key)
+            if v is UNINIT:
+                raise Unsupported('discriminant of uninitialised place in %s' % fr.body.name)
             return self.discriminant(v)
         if k == 'cast':
             return self.cast(fr, rv)
@@ -625,7 +636,7 @@ class Engine:
                 raise Unsupported('coroutine without poll body: %s' % rv[1])
             return Coroutine(rv[4], [self.eval_operand(fr, o) for o in rv[2]], rv[3])
         if k == 'len':
-            return self.seq_len(self.read_place(fr, rv[1]))
+            return self.seq_len(force(self.read_place(fr, rv[1])))
         if k == 'shallowbox':
             return self.eval_operand(fr, rv[1])
         if k == 'nullop':
@@ -833,7 +844,7 @@ class Engine:
         raise Unsupported('Int-theory binop ' + op)
 
     def cast(self, fr, rv):
-        v = self.eval_operand(fr, rv[1])
+        v = force(self.eval_operand(fr, rv[1]))
         to, kind = rv[2].strip(), rv[3]
         if kind == 'IntToInt':
             frm = self.operand_type(fr.body, rv[1])
@@ -937,7 +948,7 @@ class Engine:
                     self.write_place(fr, t[1], r)
                 bb = t[4]
             elif k == 'switch':
-                v = self.eval_operand(fr, t[1])
+                v = force(self.eval_operand(fr, t[1]))
                 bb = self.switch(fr, t, v)
             elif k == 'return':
                 return fr.l.get(0, UNIT)
@@ -948,7 +959,7 @@ class Engine:
                     self.drop_value(v)
                 bb = t[2]
             elif k == 'assert':
-                v = self.eval_operand(fr, t[1])
+                v = force(self.eval_operand(fr, t[1]))
                 if not t[2]:
                     v = b_not(v)
                 if not self.branch(v):
@@ -1265,6 +1276,17 @@ class BoundExceeded(Exception):
 
 def _zb(v):
     return z3.BoolVal(v) if isinstance(v, bool) else v
+
+
+def _slot_raw(cont, key):
+    try:
+        return cont[key]
+    except (KeyError, IndexError):
+        return UNINIT
+
+
+def force(v):
+    return v.force() if type(v) is LazyVal else v
 
 
 def _slot_get(cont, key):
